@@ -97,3 +97,21 @@ func (prophet *Prophet) VerifSetPred(peer bpv7.EndpointID, v float64) {
 func (prophet *Prophet) VerifSendMetadata(destination bpv7.EndpointID) {
 	prophet.sendMetadata(destination)
 }
+
+// VerifDataLockHeld reports whether dataMutex is held by anybody (reader or writer) right now.
+func (prophet *Prophet) VerifDataLockHeld() bool {
+	if prophet.dataMutex.TryLock() {
+		prophet.dataMutex.Unlock()
+		return false
+	}
+	return true
+}
+
+// VerifDataWriteLockHeld reports whether dataMutex is held (or awaited) by a writer right now.
+func (prophet *Prophet) VerifDataWriteLockHeld() bool {
+	if prophet.dataMutex.TryRLock() {
+		prophet.dataMutex.RUnlock()
+		return false
+	}
+	return true
+}
